@@ -236,7 +236,8 @@ Ret1Seq == << Cond(1, Mul(C(3, 1), Th), Add(C(1, 1), ThSq)),
 Ret1CatSeq == << Sel(1, Mul(C(3, 1), Th), Add(C(1, 1), ThSq), Sub(C(5, 1), Th)) >>
 Ret2Seq == << Cond(1, Cond(2, Mul(C(3, 1), Th), Add(C(1, 1), ThSq)), Cond(2, Sub(C(5, 1), Th), Add(C(7, 1), Mul(C(2, 1), ThSq)))),
               Add(Mul(V(1), Mul(C(3, 1), Th)), Add(Mul(V(2), Sub(C(5, 1), ThSq)), Mul(V(1), Mul(V(2), C(7, 2))))) >>
-Ret2CatSeq == << Sel(1, Cond(2, Mul(C(3, 1), Th), Add(C(1, 1), ThSq)), Cond(2, Sub(C(5, 1), Th), C(7, 1)), Cond(2, Mul(C(9, 1), ThSq), Add(C(11, 1), Th))) >>
+Ret2CatSeq == << Sel(1, Cond(2, Mul(C(3, 1), Th), Add(C(1, 1), ThSq)), Cond(2, Sub(C(5, 1), Th), C(7, 1)), Cond(2, Mul(C(9, 1), ThSq), Add(C(11, 1), Th))),
+                 Add(Mul(V(1), Mul(C(3, 1), Th)), Mul(V(2), Sub(C(5, 1), ThSq))) >>
 Costs0Seq == <<ThSq>>                                  \* before the first site
 Costs1Seq == <<Mul(C(2, 1), Th), Mul(V(1), ThSq)>>     \* after the first site (may use its value)
 PostCost == Cost(Mul(C(2, 1), Th))
@@ -316,7 +317,9 @@ GenProg(rr) ==
                        <<>>, guard, RN(rr, 8))
       bd    == IF two THEN pre \o <<s1>> \o mid \o <<s2>> ELSE pre \o <<s1>>
       post  == IF RPick(RN(rr, 11), 3) = 0 THEN <<PostCost>> ELSE <<>>
-  IN  [v |-> Prog(bd \o post, PickSeq(RetSeq(bd), RN(rr, 12))), r |-> RN(rr, 13)]
+      \* (the last return shape of each list is the cheap one to trace: taken 3 times out of 4)
+      rets  == RetSeq(bd)
+  IN  [v |-> Prog(bd \o post, IF RPick(RN(rr, 12), 4) = 0 THEN rets[1] ELSE rets[Len(rets)]), r |-> RN(rr, 13)]
 
 R1 == Ret1Seq[1]
 R2 == Ret2Seq[1]
@@ -334,15 +337,15 @@ Core == <<
   Prog(<<Smp("REINFORCE", Th), Cost(Mul(V(1), ThSq)), Smp("ENUM", OneMinusTh)>>, R2),
   Prog(<<Smp("REINFORCE", Th), Smp("REINFORCE", Cond(1, ThSq, C(1, 4)))>>, Ret2Seq[2]),
   Prog(<<Smp("ENUM", ThSq), Sample("REINFORCE", <<Th>>, C(0, 1), 1)>>, R2),
-  Prog(<<Smp("REINFORCE", C(1, 2)), Sample("ENUM", <<Th>>, C(0, 1), 1), PostCost>>, R2),
+  Prog(<<Smp("REINFORCE", C(1, 2)), Sample("ENUM", <<Th>>, C(0, 1), 1), PostCost>>, Ret2Seq[2]),
   Prog(<<Sample("BASELINE", <<Th>>, C(3, 1), 0), Smp("MVD", OneMinusTh)>>, R2),
   Prog(<<Sample("CATPAR", Cat1Seq[1], C(0, 1), 0), Smp("REINFORCE", PE2CatSeq[2])>>, Ret2CatSeq[1]),
   Prog(<<Smp("ENUMPAR", Th), Sample("BASELINE", <<OneMinusTh>>, Mul(C(2, 1), Th), 0)>>, Ret2Seq[2]),
   Prog(<<Smp("ENUM", Bnd)>>, R1),                                       \* p = 0, 1/2, 1
   Prog(<<Smp("ENUMPAR", Bnd), PostCost>>, Ret1Seq[2]),
-  Prog(<<Smp("ENUM", Bnd), Smp("REINFORCE", Cond(1, ThSq, C(1, 4)))>>, R2),
+  Prog(<<Smp("ENUM", Bnd), Smp("REINFORCE", Cond(1, ThSq, C(1, 4)))>>, Ret2Seq[2]),
   Prog(<<Smp("MVD", Th), PostCost>>, R1),                               \* statements after flip_mvd
-  Prog(<<Smp("MVD", ThSq), Smp("REINFORCE", Cond(1, Th, C(1, 4)))>>, R2),
+  Prog(<<Smp("MVD", ThSq), Smp("REINFORCE", Cond(1, Th, C(1, 4)))>>, Ret2Seq[2]),
   Prog(<<Sample("REINFORCE", <<Th>>, C(0, 1), 3), Smp("REINFORCE", ThSq)>>, Ret2Seq[2])   \* site in a branch, site after the cond
 >>
 
